@@ -156,7 +156,7 @@ fn hasher() -> SeededStableHasherBuilder<Sip128Hasher> { SeededStableHasherBuild
 
 pub fn run(sc: &Scenario, replay: Option<Vec<String>>) -> Outcome {
     let mut out = Outcome::default();
-    crate::common::set_sites(&["intern_"]);
+    crate::common::set_sites(&["intern_", "shard_lock_"]);
     let interner = Interner::new(sc.shards, hasher());
     // create the per-type shards up front: a thread parked inside the
     // probe/insert window holds the outer shard map for reading
